@@ -555,10 +555,13 @@ TRICKY = ['t', 'e', 'j', 'I', 'S', 'x1', 'X_1', 'a_b_', 'Y_', 'is_open', 'Pin', 
           # leading underscores: `self.__u` inside a class body would be name-mangled by Python (S6)
           '_u', '_x1', '__a',
           # a reserved word directly followed by a digit is an ordinary name
-          'in1', 'is2', 'or3', 'if0', 'not1', 'as1']
+          'in1', 'is2', 'or3', 'if0', 'not1', 'as1',
+          # leading underscore(s) and ONE trailing underscore (still name-mangled inside a class body; only a double
+          # trailing underscore is exempt)
+          '_x_', '__u_', '_a_1_', '_x__']
 FUNCTION_LIKE = ['exp', 'max', 'log', 'min', 'abs']   # used as plain variables (never also called in the same program)
-PARAM_NAMES = ['a', 'b', 'alpha_1', 'k', 'theta', 'in_p', 'if_', '_p', 'in2']
-ERROR_NAMES = ['u', 'eps', 'err_1', 'v', 'or_e', '_e', 'or1']
+PARAM_NAMES = ['a', 'b', 'alpha_1', 'k', 'theta', 'in_p', 'if_', '_p', 'in2', '_p_']
+ERROR_NAMES = ['u', 'eps', 'err_1', 'v', 'or_e', '_e', 'or1', '_e_']
 
 REPLACED_CALLS = [('exp', 1), ('log', 1), ('max', 2), ('min', 2)]
 OTHER_CALLS = [('abs', 1), ('float', 1), ('np.sqrt', 1), ('np.abs', 1), ('np.exp', 1), ('np.log', 1),
